@@ -15,6 +15,7 @@ TARGET = os.path.join(ROOT, 'build', 'cargo-target')
 APPEND = {
     'src/fixed/method.rs': 'hooks_fixed_method.rs',
     'src/fixed/layout.rs': 'hooks_layout.rs',
+    'src/phonetic/mod.rs': 'hooks_phonetic_mod.rs',
 }
 
 
